@@ -934,6 +934,9 @@ class Engine:
         items = [self.ev(x) for x in e.elts]
         if self.st.spec:
             return self.new_tuple(items)
+        if items and all(i.ty in ("int", "real") and i.none is None for i in items) and any(i.ty == "real" for i in items):
+            # numeric literal mixing ints and floats ([50, 99.9, 100]): a list of numbers
+            return self.list_from([self.coerce(i, "real") for i in items], "real")
         if items and any(i.ty != items[0].ty or i.none is not None for i in items):
             # fixed-shape heterogeneous list literal (e.g. a report row): modelled as an immutable tuple
             self.notes.append("heterogeneous list literal modelled as tuple: " + U(e)[:60])
